@@ -84,3 +84,41 @@ PROPS["C09"] = dict(
                  "secp256k1/ES256K on GnuTLS: refusal only (not compiled in that provider), no completeness demand"],
     budget_s=dict(quick=600, thorough=900),
 )
+
+# ---------------------------------------------------------------- C04
+PROPS["C04"] = dict(
+    level="model_checking",
+    technique="explicit-state BFS over checker configuration histories with a lock-step reference model; probe battery x clocks in every state on the real code",
+    level_text=("all 324 reachable states of the claim-configuration machine (closure of the frontier under 21 operations incl. "
+                "invalid calls) are reached on the real checker by replaying the history that reaches them; every transition's "
+                "return code and observers are compared with the model, and in every state a battery of tokens around each "
+                "boundary, each JSON type and each string relation is verified at three clock values, unsigned and HS256-signed, "
+                "and compared with ref_claims in both directions"),
+    level_note="model = 60 lines of C in harness/claims.c (model_step, ref_claims); every explored history is an implementation trace",
+    rule=("states = reachable model states; transitions = state x operation; per state a battery of probe tokens (quick: single-claim "
+          "variations from an all-pass and an all-fail baseline; thorough: plus all pairs of claim shapes) x 3 clocks x "
+          "{unsigned/key-less, HS256/keyed}; evaluations = jwt_checker_verify calls compared with the model; a case is non-trivial "
+          "when it ran a battery on a replayed history (each is distinct by descriptor)"),
+    runs=lambda tier: [dict(harness="claims", args=["--param", 0])] + ([dict(harness="claims", args=["--param", 1])] if tier == "thorough" else []),
+    bound=dict(quick="all 324 states / 6804 transitions (frontier closed); reduced battery", thorough="all states/transitions; full pair battery; both providers"),
+    assumptions=["leeways are drawn from {-1, 0, 5, 2^40} and expected strings from {a, b}: other values are not enumerated",
+                 "payloads that jansson itself refuses (escaped NUL) carry no acceptance demand"],
+    budget_s=dict(quick=600, thorough=1800),
+)
+
+# ---------------------------------------------------------------- C19
+PROPS["C19"] = dict(
+    level="model_checking",
+    technique="deviation-bounded exhaustive enumeration of callback programs (all programs up to length L over 17 token-mutating calls) on the real checker, differential oracle",
+    level_text=("every callback program of length <= 2 (quick) / <= 3 (thorough) over 17 header/claim set/replace/delete/merge/get "
+                "calls is installed on the real checker for every claim-check configuration (8) x keyed/key-less x 9 payloads x 3 "
+                "signature kinds; the verdict must equal that of the same checker without a callback; non-zero returns must "
+                "always reject"),
+    level_note="differential oracle with no expected values: program vs no callback on identically configured fresh checkers",
+    rule=("states = callback programs; transitions = (program, configuration, token) cells each executing two real verifications; "
+          "a case is non-trivial when the callback actually ran (token parsed); distinct by descriptor"),
+    runs=lambda tier: [dict(harness="claims", args=["--param", 0])] + ([dict(harness="claims", args=["--param", 1])] if tier == "thorough" else []),
+    bound=dict(quick="all programs of length <= 2 (307)", thorough="all programs of length <= 3 (5220), both providers"),
+    assumptions=["callbacks that change config->key/alg are C02's routes; here the config is left untouched"],
+    budget_s=dict(quick=600, thorough=2400),
+)
